@@ -20,3 +20,5 @@ BOUNDS = {
 }
 OUTSIDE = 'longer paths, drive-letter prefixes, File content operations (write/append/seek/readAll/copy/rename: kernel behaviour, not claimed), real file systems (the directory tree is a POSIX model of mkdir/rmdir/unlink/stat/lstat/opendir/readdir)'
 ASSUMPTIONS = ['clang++-14 -O1 IR of src/File.cpp (path functions only are executed), src/String.cpp, src/Memory.cpp']
+
+TECHNIQUE = 'solver-based bounded symbolic execution of clang-14 LLVM IR for the path functions (symbolic path bytes, z3, native replay); the directory and rename parts are exhaustive enumerations of concrete layouts and injected failures on an engine model of the POSIX directory tree (no solver there)'
